@@ -18,6 +18,7 @@ The cell follows the sequential specification of `AtomicBaseTime`
 -/
 import Woodpile.Proofs.NfsVoucher
 import Woodpile.Proofs.VouchedTime
+import Woodpile.Props.C13R
 
 namespace Woodpile.Props.C19
 open Woodpile.Raffle Woodpile.NfsVoucher
@@ -142,5 +143,124 @@ example : ((step init (.addTrusted 0 (.stat ⟨27, 1, 0⟩))).1.base, (step init
     ≠ (init.base, init.voucher) := by decide +kernel
 -- Observation O3: a negative change-time saturates the base time at 2^64 - 1 (the model follows the code).
 example : millisOf ⟨27, -1, 0⟩ = 18446744073709551615 := by decide +kernel
+
+end Woodpile.Props.C19
+
+namespace Woodpile.Props.C19
+open Woodpile.Raffle Woodpile.NfsVoucher Woodpile.Abt
+
+/-! ## What the cell of this model is, and what concurrency C19 covers (track abt2, claim-audit gap 10)
+
+`nfs_voucher.rs` does NOT serialise its public functions: there is no module-wide mutex.
+`TRUSTED_PATHS` is an `RwLock` (read-locked for one lookup in `update_base_time` and for the
+whole loop of `scan_for_base_time_impl`, write-locked only for the `insert` of
+`add_trusted_path`), `LAST_UPDATE` is thread-local, and `BASE_TIME` is a bare `AtomicBaseTime`
+reached through `update` (`blocking: true`, from the scan), `try_update` (`blocking: false`,
+from `observe_file_time` / `add_trusted_path`) and `snapshot` (`get_base_time_unlocked`,
+`should_refresh_base_time`).  So two threads may be inside any two module functions at once.
+
+The theorems of C19 (`base_monotone` … `no_panic`) are about SEQUENTIAL histories: a `List Call`
+executed one call after the other by `NfsVoucher.step`, whose cell operations are
+`cellUpdate` / `cellSnapshot`.  The theorems below say exactly what those two functions are in
+terms of the verified concurrent object: the `AtomicBaseTime` programs of `Woodpile.Abt` (the
+ones C13 / C18 are about, tied to the code by hook H3), run ALONE from a state in which the
+writer mutex is free and not poisoned, on the SC machine at the crate's real voucher check.
+Hence C19's dependence: C19 = these refinement theorems + the sequential model.  For
+CONCURRENT use of the module nothing in C19 applies directly; what carries over is C13/C18 on
+the cell itself (every pair ever returned by `get_base_time*` is a published, valid pair;
+published base times never decrease - `C13.ra_published_monotone`; per thread the observed base
+time never decreases; `get_base_time_unlocked` never waits), and the fact that the only pairs
+the module ever passes to the cell are `(millisOf stat, vouch …)` of a file it just found on a
+trusted (or being-registered) device - the latter is a property of the straight-line code of
+`update_base_time`, which the sequential model covers call by call. -/
+
+/-- The check used on the `Woodpile.Abt` machines here is C13R's `chkReal`. -/
+theorem chkNat_is_chkReal : chkNat = Woodpile.Props.C13R.chkReal := rfl
+
+/-- `BASE_TIME`'s initial abstract value is the cell of `NfsVoucher.init`. -/
+theorem init_cells_agree :
+    SC.cellOf (SC.init Woodpile.Props.C13R.v0Real) = some (absCell NfsVoucher.init) := by
+  simp [SC.cellOf, SC.init, absCell, NfsVoucher.init, Woodpile.Props.C13R.v0Real]
+
+/-- `seq_update_refines`: `cellUpdate` IS `AtomicBaseTime::update` / `try_update` run alone.
+From any reachable SC state of the `Abt` machine (real voucher check) whose writer mutex is
+free and unpoisoned (`SC.Quiescent`; by `C13.sc_invariant.lock` no thread is then inside
+`advance_once`; other threads may be idle, mid-snapshot, or about to lock) and whose most
+recently published pair is the cell of the module state `st`: thread `tid` starting
+`update (t, v)` or `try_update (t, v)` and running alone completes in 5 (ignored) or 8 (accepted)
+steps, returns the flag `cellUpdate` computes, leaves the mutex free and unpoisoned, and the
+most recently published pair is the cell of `cellUpdate`'s new state (the trusted-path table
+is not touched); if `cellUpdate` says the assertion fires, the program ends at the failed
+`assert!` with the mutex poisoned and nothing published. -/
+theorem seq_update_refines {s : SC.State} (h : SC.Reachable chkNat Woodpile.Props.C13R.v0Real s)
+    (hq : SC.Quiescent s) (tid : Nat) (hterm : (s.thr tid).pc.terminal = true)
+    (st : St) (hcell : SC.cellOf s = some (absCell st)) (t v : UInt64)
+    (op : Op) (hop : op = .update t.toNat v.toNat ∨ op = .tryUpdate t.toNat v.toNat) :
+    match cellUpdate st t v with
+    | some (st', r) =>
+      ∃ s', SC.run chkNat s (.start tid op :: List.replicate (if r then 8 else 5) (.run tid 0)) = some s' ∧
+        (s'.thr tid).pc = .retBool r ∧ SC.Quiescent s' ∧ SC.cellOf s' = some (absCell st') ∧
+        st'.trusted = st.trusted
+    | none =>
+      ∃ s', SC.run chkNat s (.start tid op :: List.replicate 5 (.run tid 0)) = some s' ∧
+        (s'.thr tid).pc = .aPanic ∧ s'.held = none ∧ s'.poisoned = true ∧ s'.hist = s.hist := by
+  have hI := SC.inv_reachable (chk := chkNat) Woodpile.Props.C13R.epoch_pair_checks h
+  have hw := SC.writer_refines hI hq tid hterm (absCell st) hcell t.toNat v.toNat op hop
+  have hc := cellUpdate_refines st t v
+  cases hcu : cellUpdate st t v with
+  | none =>
+    rw [hcu] at hc
+    simp only [hc] at hw
+    exact hw
+  | some x =>
+    obtain ⟨st', r⟩ := x
+    rw [hcu] at hc
+    simp only [hc.1] at hw
+    obtain ⟨s', a, b, c, d, _⟩ := hw
+    exact ⟨s', a, b, c, d, hc.2⟩
+
+/-- `cellSnapshot` / `NfsVoucher.getBaseTimeUnlocked` IS `AtomicBaseTime::snapshot` run alone, and
+it needs NO quiescence (statement and comments: `NfsVoucher.unlocked_refines`; also pinned for
+C18 as `C18.unlocked_is_abt_snapshot`): from any reachable SC state - a writer may hold the lock
+half way through its stores, the mutex may be poisoned - whose most recently published pair is
+the cell of `st`, four loads, nothing shared changes, and the result is the pair the NFS model
+returns. -/
+theorem seq_snapshot_refines {s : SC.State} (h : SC.Reachable chkNat Woodpile.Props.C13R.v0Real s)
+    (tid : Nat) (hterm : (s.thr tid).pc.terminal = true) (st : St) (hcell : SC.cellOf s = some (absCell st)) :
+    getBaseTimeUnlocked st = (st, .pair st.base st.voucher) ∧
+    cellSnapshot st = some (st.base, st.voucher) ∧
+    ∃ s', SC.run chkNat s (.start tid getBaseTimeUnlockedOp :: List.replicate 4 (.run tid 0)) = some s' ∧
+      (s'.thr tid).pc = .retSnap ∧ (s'.thr tid).base = st.base.toNat ∧ (s'.thr tid).bits = st.voucher.toNat ∧
+      s'.mem = s.mem ∧ s'.held = s.held ∧ s'.poisoned = s.poisoned ∧ s'.hist = s.hist :=
+  unlocked_refines Woodpile.Props.C13R.epoch_pair_checks h tid hterm st hcell
+
+/-- Where the sequential model's identification of `try_update` with `update` stops: on a
+poisoned (free) mutex `try_update` returns `false` without looking at its argument, whatever
+`cellUpdate` says, while `update` recovers (`SC.update_recovers_from_poison`).  A mutex is
+poisoned only by a panic inside `advance_once`; `no_panic` (sequential) and the fact that the
+module only ever passes `(t, vouch t)` - a valid pair, `Raffle.check_nfs` - keep that arm dead. -/
+theorem try_update_differs_only_when_poisoned (s : SC.State) (hheld : s.held = none) (hpois : s.poisoned = true)
+    (tid : Nat) (hterm : (s.thr tid).pc.terminal = true) (b v : Nat) :
+    ∃ s', SC.run chkNat s (.start tid (.tryUpdate b v) :: List.replicate 3 (.run tid 0)) = some s' ∧
+      (s'.thr tid).pc = .retBool false ∧ SC.Quiescent s' ∧ s'.hist = s.hist ∧ s'.mem = s.mem :=
+  SC.try_update_poisoned_returns_false chkNat s hheld hpois tid hterm b v
+
+end Woodpile.Props.C19
+
+namespace Woodpile.Props.C19
+open Woodpile.Raffle Woodpile.NfsVoucher Woodpile.Abt
+
+/-! Non-vacuity (gap 10): the hypotheses of `seq_update_refines` / `seq_snapshot_refines` hold in the
+initial state of `BASE_TIME` against the initial module state ... -/
+example : SC.Reachable chkNat Woodpile.Props.C13R.v0Real (SC.init Woodpile.Props.C13R.v0Real) ∧
+    SC.Quiescent (SC.init Woodpile.Props.C13R.v0Real) ∧
+    ((SC.init Woodpile.Props.C13R.v0Real).thr 0).pc.terminal = true ∧
+    SC.cellOf (SC.init Woodpile.Props.C13R.v0Real) = some (absCell NfsVoucher.init) :=
+  ⟨⟨[], rfl⟩, ⟨rfl, rfl⟩, rfl, init_cells_agree⟩
+
+/-- ... and all three outcomes of `cellUpdate` occur: accepted, ignored (stale), assertion. -/
+example : (cellUpdate NfsVoucher.init 5 (vouchRaw nfsVouch 5)).map (·.2) = some true
+    ∧ (cellUpdate { NfsVoucher.init with base := 7, voucher := vouchRaw nfsVouch 7 } 5 (vouchRaw nfsVouch 5)).map (·.2) = some false
+    ∧ (cellUpdate NfsVoucher.init 5 0).map (·.2) = none := by decide +kernel
 
 end Woodpile.Props.C19
